@@ -739,8 +739,9 @@ class MPSWorld(World):
                 if abs(top - float((s**2).sum())) > 1e-8 * max(1.0, float((s**2).sum())) or (len(ev) > 1 and abs(ev[-2]) > 1e-8 * max(1.0, top)):
                     raise Violation("C08/reader:bipartite_schmidt_state",
                                     f"get={form}: not the rank-one projector on the Schmidt vector (top eigenvalues {ev[-2:]}, |s|^2={float((s**2).sum())})")
-                dg = np.sort(np.abs(np.real(np.diag(R))))[::-1]
-                dd = np.sort(np.abs(np.diag(R.reshape(k, k, k, k)[:, :, :, :].reshape(k * k, k * k))))[::-1]
+                # ... whose diagonal in the (A, B) product basis holds the s_i^2
+                self._cmp_sorted(np.abs(np.diag(R.reshape(k, k, k, k)[np.arange(k), np.arange(k)][:, np.arange(k), np.arange(k)])),
+                                 s**2, what, 1e-8 * max(1.0, s[0] ** 2))
                 self.stats.probe("reader:bipartite_schmidt_state:" + form)
                 self.stats.probe("reader:" + what)
                 return
